@@ -6,6 +6,9 @@
 mod out;
 mod props;
 mod rng;
+mod sched;
+mod simk;
+mod util;
 
 use std::process::exit;
 
